@@ -405,6 +405,37 @@ def judge_schematic(case, ctx, prefix):
         must_raise(ctx, prefix, 'second-ground/schematic', f'two ground symbols with solution {sol!r}', create_schematic, d)
         d = copy.deepcopy(ok); d['elements'][2]['name'] = 'R1'
         must_raise(ctx, prefix, 'duplicate-id/schematic', f'two elements named R1 with solution {sol!r}', create_schematic, d)
+    # ---- a requested annotation of an unknown element / node: rejected, or left out - never drawn with a value
+    from CircuitCalculator.SimpleCircuit import Elements as elm
+    known = {'voltages': ['R1', 'R2'], 'currents': ['R2', 'Vs'], 'powers': ['R1'], 'potentials': []}
+    for section in ('voltages', 'currents', 'powers', 'potentials'):
+        for pos in range(len(known[section]) + 1):
+            unk = rng.choice(['Rx', 'r1', 'R1 ', 'R10', 'N0'])      # not '0' (the ground symbol's default name) and not '' (wires)
+            names = list(known[section]); names.insert(pos, unk)
+            d = copy.deepcopy(base); d['solution'] = {'type': rng.choice(['dc', 'complex']), section: [{'name': x} for x in names]}
+            ctx.count('faults_injected'); ctx.count('faults_unknown-id')
+            r = call(create_schematic, d)
+            if raised(r):
+                ctx.count('unknown_annotation_rejected')
+                continue
+            got = [e for e in r.elements if isinstance(e, (elm.VoltageLabel, elm.CurrentLabel, elm.PowerLabel, elm.LabelNode))]
+            ctx.count('unknown_annotation_left_out')
+            if len(got) > len(known[section]):
+                ctx.violation(f'{prefix}/accepted/unknown-id/schematic-annotation/{section}', f'{section} annotation of the unknown name {unk!r} at position {pos} was drawn: {len(got)} labels for {len(known[section])} known names', {})
+    # ---- a symbol that is not one of the library's (plain schemdraw part) in a drawing: the translation must refuse it, wherever it sits
+    import schemdraw.elements as raw
+    from CircuitCalculator.SimpleCircuit.DiagramTranslator import circuit_translator
+    for pos in range(4):
+        def build():
+            d = elm.Schematic(unit=3)
+            parts = [lambda: elm.VoltageSource(V=5.0, name='Vs').up(), lambda: elm.Resistor(R=10.0, name='R1').right(), lambda: elm.Resistor(R=20.0, name='R2').down(), lambda: elm.Line().left()]
+            foreign = rng.choice([lambda: raw.Resistor().right(), lambda: raw.Capacitor().down(), lambda: raw.SourceV().up(), lambda: raw.Diode().right()])
+            parts.insert(pos, foreign)
+            for mk in parts:
+                d += mk()
+            d += elm.Ground()
+            return circuit_translator(d)
+        must_raise(ctx, prefix, 'unknown-type/drawing', f'a plain schemdraw part as symbol {pos} of a drawing', build)
 
 
 def guards(m, tier):
